@@ -1,11 +1,35 @@
 import ctypes
+import math
+import re
 from .cell import CellType
+
+
+# the numerals READ and INPUT accept for numeric variables (Python's
+# int() and float() also take '1_000', 'nan', 'inf' and digits of other
+# scripts)
+INTEGER_NUMERAL = re.compile(r'\s*[+-]?[0-9]+\s*\Z', re.ASCII)
+FLOAT_NUMERAL = re.compile(
+    r'\s*[+-]?([0-9]+\.?[0-9]*|\.[0-9]+)([eEdD][+-]?[0-9]+)?\s*\Z',
+    re.ASCII)
+
+
+def parse_int(s):
+    'int() restricted to plain decimal numerals'
+    if not INTEGER_NUMERAL.match(s):
+        raise ValueError(f'not an integer numeral: {s!r}')
+    return int(s)
 
 
 def parse_float(s):
     """float() that also accepts the D exponent letter (what PRINT
     shows for a DOUBLE in exponent form, and what VAL accepts)"""
-    return float(s.replace('D', 'E').replace('d', 'e'))
+    if not FLOAT_NUMERAL.match(s):
+        raise ValueError(f'not a numeral: {s!r}')
+    value = float(s.replace('D', 'E').replace('d', 'e'))
+    if math.isinf(value):
+        # 1D400: no type can hold it
+        raise ValueError(f'numeral out of range: {s!r}')
+    return value
 
 
 def format_number(n, n_type):
